@@ -313,6 +313,16 @@ func stressShapes() []string {
 		"(or (< ?I ?I) (<= ?I ?I) (>= ?I ?I) (!= ?I ?I))",
 		"(and (between ?I ?I ?I) (ne ?I ?I) (eq ?B ?B))",
 		"(- (* ?I ?I) (mod ?I ?I) (div ?I ?I))",
+		// xor next to and / or (groups of different kinds are never merged), membership in the empty list
+		// with operands that fail or have effects
+		"(or ?B (xor ?B ?B))",
+		"(xor ?B (or ?B ?B))",
+		"(or (xor ?B ?B) ?B (xor ?B ?B))",
+		"(xor (and ?B ?B) ?B (or ?B ?B))",
+		"(and ?B (xor ?B ?B) ?B)",
+		"(or (in (q ?I) ()) ?B)",
+		"(if (in (/ 7 ?I) ()) ?I (q ?I))",
+		"(and (not (in (p ?B) ())) (in ?I ()))",
 		// wider operators with nested operators in late positions
 		"(and ?B ?B (or ?B ?B ?B) ?B)",
 		"(or ?B ?B ?B (and ?B ?B ?B) ?B)",
